@@ -49,6 +49,9 @@ def requests(ctx):
     # malformed stream: outside the property's quantifier (spec `-`), model and code must still agree (panic or not)
     for _ in range(400 if quick else 4000):
         rq.append(malform(rng, storegen.gen_history(rng, nsteps=rng.choice([1, 2, 4]), split_p=0.2)))
+    # the FST loader's own storage (fst::SignalWriter, expand_entries on widening) obeys the same property: every order of state kinds
+    from . import c10
+    rq += c10.fstw_requests(rng, range(1, 18) if ctx.tier == "quick" else range(1, 34), 3, 300 if ctx.tier == "quick" else 3000)
     return rq
 
 
